@@ -142,8 +142,18 @@ func TestRecordsOfTheSpec(t *testing.T) {
 	if z := Parse("2020-01-01\n \n2020-01-02\n"); z.Verdict != Valid || len(z.Records) != 2 || !z.ZsBlank {
 		t.Errorf("zs blank line: %+v", z)
 	}
+	// a carriage return that does not belong to a CR LF newline is an ordinary non-blank character
+	for doc, want := range map[string]Verdict{
+		"2020-01-01\n    1h a\rb\n": Valid, "2020-01-01\r\r\n    1h\n": Invalid, "2020-01-01\n    1h\r": Invalid, "2020-01-01\n    1h\rfoo\n": Invalid,
+		"2020-01-01\nnote\r\r\n    1h\n": Valid, "2020-01-01\n\r\r\n2020-01-02\n": Valid, "2020-01-01\n    1h\n\r\r\n2020-01-02\n": Invalid, "2020-01-01\n    1h x\n        \r\r\n": Valid,
+		"2020-01-01 \r\r\n": Invalid, "\r2020-01-01\n": Invalid, "2020-01-01\n    8:00 -\r9:00\n": Invalid,
+	} {
+		if got := Parse(doc); got.Verdict != want {
+			t.Errorf("%q: verdict %v (%s), want %v", doc, got.Verdict, got.Rule, want)
+		}
+	}
 	// don't-care zones
-	for _, doc := range []string{"2020-01-01\t(8h!)\n", "2020-01-01\n    1h\tx\n", "2020-01-01 ( 8h! )\n", "2020-01-01\n    1h a\rb\n", "2020-01-01\n    1h \xff\n", "2020-01-01\n    99999999999h\n"} {
+	for _, doc := range []string{"2020-01-01\t(8h!)\n", "2020-01-01\n    1h\tx\n", "2020-01-01 ( 8h! )\n", "2020-01-01\n    1h \xff\n", "2020-01-01\n    99999999999h\n"} {
 		if got := Parse(doc); got.Verdict != Unspec {
 			t.Errorf("%q should be a don't-care, got %v", doc, got.Verdict)
 		}
